@@ -800,7 +800,7 @@ _FUZZ_SPECS = [
 
 
 def enum_fuzz(tier, seed):
-    runs = 15000 if tier == "quick" else 3000000
+    runs = 15000 if tier == "quick" else int(os.environ.get("VF_FUZZ_RUNS", 3000000))
     for k in range(8 if tier == "quick" else 16):
         # half of the campaigns start from small valid files, half from an empty corpus
         yield dict(fuzz_seed=seed * 1000 + k + 1, runs=runs, corpus="seeded" if k % 2 == 0 else "empty")
